@@ -123,6 +123,8 @@ package retrypolicy
 //@ macro retryListenersDistinct(e) = (e.onAbort == nil || (e.onAbort != e.onRetry && e.onAbort != e.onRetriesExceeded && e.onAbort != e.onFailure && e.onAbort != e.onSuccess)) && (e.onRetriesExceeded == nil || (e.onRetriesExceeded != e.onRetry && e.onRetriesExceeded != e.onFailure && e.onRetriesExceeded != e.onSuccess)) && (e.onRetry == nil || (e.onRetry != e.onFailure && e.onRetry != e.onSuccess)) && (e.BaseFailurePolicy == nil || e.onFailure == nil || e.onFailure != e.onSuccess)
 
 //@ func (*executor).OnFailure
+//@   beforecall e.onAbort: assert [C14.user_callback_gets_copy] userCopy(callarg_0.ExecutionAttempt)
+//@   beforecall e.onRetriesExceeded: assert [C14.user_callback_gets_copy] userCopy(callarg_0.ExecutionAttempt)
 //@   requires retryWellFormed(e) && exec != nil && result != nil
 //@   requires e.failedAttempts >= 0 && e.failedAttempts <= 4611686018427387904
 //@   premise retryListenersDistinct(e)
@@ -178,6 +180,8 @@ package retrypolicy
 //@ macro attemptFailed(e, r) = isFailureOf(e.BaseExecutor, cast(r, *common.PolicyResult).Result, cast(r, *common.PolicyResult).Error) && !abortableOf(e, cast(r, *common.PolicyResult).Result, cast(r, *common.PolicyResult).Error)
 
 //@ func (*executor).Apply$1
+//@   beforecall e.onRetryScheduled: assert [C14.user_callback_gets_copy] userCopy(callarg_0.ExecutionAttempt)
+//@   beforecall e.onRetry: assert [C14.user_callback_gets_copy] userCopy(callarg_0.ExecutionAttempt)
 //@   dyntype policy.Executor *executor
 //@   inlinecalls (*BaseExecutor).PostExecute
 //@   requires retryWellFormed(e) && innerFn != nil && typeis(exec, *failsafe.execution)
